@@ -280,7 +280,7 @@ Proof. reflexivity. Qed.
 
 Lemma op_prog_seq mods t o : apply_all (tops (op_prog mods o)) t = fst (step mods t o).
 Proof.
-  destruct o as [c spec d|m lv py|c|c]; simpl.
+  destruct o as [c spec d|m lv py|c|c|c sp|c sp]; simpl; [| | | |reflexivity|reflexivity].
   - pose proof (logging_ops_seq mods t c spec d) as L.
     destruct (logging_ops mods c spec d) as [ops e]. simpl in *.
     rewrite tops_app. simpl. rewrite app_nil_r. rewrite L.
@@ -319,7 +319,8 @@ Qed.
 Lemma op_prog_touch mods o c op m' c' :
   by_conn c op = true -> In o (tops (op_prog mods op)) -> c' <> c -> touches m' c' o = false.
 Proof.
-  destruct op as [c0 spec d|m lv py|c0|c0]; simpl; intros B H N; try discriminate;
+  destruct op as [c0 spec d|m lv py|c0|c0|c0 sp|c0 sp]; simpl; intros B H N; try discriminate;
+    try (destruct H; fail);
     apply Nat.eqb_eq in B; subst c0.
   - unfold logging_ops in H. destruct (req_targets mods spec) as [ms|]; simpl in H; [|destruct H].
     destruct (check_level d) as [lv|e]; simpl in H; [|destruct H].
